@@ -6,6 +6,7 @@
 //   w <addr> <byte> <line>  Memory::write (data and line marker)
 //   wd <addr> <line>        Memory::write_debug
 //   clr                     Memory::clear
+//   lo <addr> / hi <addr>   low_address / high_address assigned directly, as the file loaders do
 //   r8 / r16 / r32 <addr>   reads; the value is logged as bytes, least significant first
 //   rd <addr>               Memory::read_debug
 //   use <addr>              Memory::in_use
@@ -47,6 +48,8 @@ static void mem_case(const Case &c, FILE *out)
     else if (op == "w") { m->write(a, v[0], (int)v[1]); }
     else if (op == "wd") { m->write_debug(a, (int)v[0]); }
     else if (op == "clr") { m->clear(); }
+    else if (op == "lo") { m->low_address = a; }
+    else if (op == "hi") { m->high_address = a; }
     else if (op == "r8") { val[0] = m->read8(a); nval = 1; }
     else if (op == "r16") { uint16_t x = m->read16(a); val[0] = x & 0xff; val[1] = x >> 8; nval = 2; }
     else if (op == "r32")
